@@ -93,20 +93,20 @@ type MReq struct {
 
 // CState is a container (or a resource set) as items.
 type CState struct {
-	Ann     map[string]string
-	Env     map[string]string
-	Mounts  map[string]string
-	Devs    map[string]string
-	Args    []string
+	Ann      map[string]string
+	Env      map[string]string
+	Mounts   map[string]string
+	Devs     map[string]string
+	Args     []string
 	OrigArgs []string // the runtime's original command line (what a bare removal marker reverts to)
-	Hooks   map[string][]string
-	Rlimits []string
-	Res     map[string]string
-	Huge    map[string]string
-	Unified map[string]string
-	CgPath  string
-	Oom     string
-	Anomal  []string // duplicates found while extracting from a real message
+	Hooks    map[string][]string
+	Rlimits  []string
+	Res      map[string]string
+	Huge     map[string]string
+	Unified  map[string]string
+	CgPath   string
+	Oom      string
+	Anomal   []string // duplicates found while extracting from a real message
 }
 
 func newCState() *CState {
